@@ -99,6 +99,7 @@ type Outcome struct {
 	Steps     int
 	Diverged  string // replay divergence (infrastructure error)
 	MainDone  bool
+	Parked    []string // threads still alive (parked) when the execution ended
 	Conflicts int // number of events that touched an object previously touched by another thread
 }
 
@@ -507,6 +508,15 @@ func runOnce(cfg runConfig, body func()) Outcome {
 		}
 	}
 	g.Store(nil)
+	for _, t := range s.threads {
+		if !t.dead && !s.out.Cut {
+			k := "start"
+			if t.pending != nil {
+				k = opName(t.pending.kind)
+			}
+			s.out.Parked = append(s.out.Parked, fmt.Sprintf("%d:%s", t.id, k))
+		}
+	}
 	s.out.Points = s.points
 	s.out.Steps = s.steps
 	if s.out.Diverged == "" && s.pos < len(s.prefix) && !s.out.Cut {
